@@ -88,6 +88,25 @@ func (p c03) Run(c *core.Ctx) {
 			c.Count("failing_leaves_looked_up", 1)
 		}
 	}
+	// every fifth case: a post-processor component with injection points of its own (verif.namepp: np-target,
+	// np-req) through which a cycle is entered while the processors are being set up - under a substituter
+	// that is already active then (priority-ordered)
+	viaPP := c.Index%5 == 2
+	if viaPP {
+		tgt := g.AddNode([]int{0, 1, 3}[c.Rng.Intn(3)], "np-target")
+		req := g.AddNode([]int{0, 1, 3}[c.Rng.Intn(3)], "np-req")
+		g.EdgeByName(tgt, req, "", "iface")
+		if c.Rng.Intn(3) > 0 {
+			g.EdgeByName(req, tgt, "", "iface")
+		}
+		if c.Rng.Intn(2) == 0 {
+			g.EdgeByName(c.Rng.Intn(tgt), tgt, "", "iface")
+		}
+		if c.Rng.Intn(2) == 0 {
+			g.EdgeByName(tgt, c.Rng.Intn(tgt), "", "iface")
+		}
+		c.Count("cases_with_a_cycle_entered_through_a_post_processor_component", 1)
+	}
 	n := len(sc.Nodes)
 	selfReq := map[int]bool{}
 	for i := 0; i < n; i++ {
@@ -122,11 +141,24 @@ func (p c03) Run(c *core.Ctx) {
 		plan[sc.Nodes[i].DisplayName()] = pl
 		wrappedIdx[i] = true
 	}
+	if viaPP && c.Rng.Intn(4) > 0 {
+		i, _ := nodeNamed(sc, []string{"np-target", "np-target", "np-req"}[c.Rng.Intn(3)])
+		pl := []world.SubPlan{{After: true}, {Before: true}, {Early: true, After: true}, {After: true}}[c.Rng.Intn(4)]
+		pl.SameType = sameType
+		plan[sc.Nodes[i].DisplayName()] = pl
+		wrappedIdx[i] = true
+	}
 	adj := sc.NamedAdj()
 	for o := 0; o < 3; o++ {
 		g.ShuffleOrders()
 		sub := world.NewSubstituter(plan)
-		r := world.Start(sc, world.Options{Extra: []any{sub}})
+		extra := []any{sub}
+		var npp *world.NamePP
+		if viaPP {
+			npp = &world.NamePP{}
+			extra = []any{&world.EarlySubstituter{Substituter: sub}, npp}
+		}
+		r := world.Start(sc, world.Options{Extra: extra})
 		c.Count("starts", 1)
 		c.Count("outcome_"+r.Outcome(), 1)
 		switch r.Outcome() {
@@ -179,6 +211,25 @@ func (p c03) Run(c *core.Ctx) {
 					if name != "" {
 						byName[name] = append(byName[name], seenT{ref.Obj, sc.Nodes[ni].DisplayName() + "." + s})
 					}
+				}
+			}
+		}
+		if npp != nil {
+			// what the post-processor component itself holds counts like any holder's field
+			for where, o := range map[string]any{"verif.namepp.One": npp.One, "verif.namepp.AnyOne": npp.AnyOne, "verif.namepp.Req": npp.Req} {
+				ref := r.RefOf(o)
+				name := ""
+				switch {
+				case ref.Nil:
+				case ref.Wrap != nil:
+					name = ref.Wrap.OrigName
+				case ref.Pop >= 0:
+					if nn, ok := ref.Obj.(world.Node); ok {
+						name = nn.DisplayName()
+					}
+				}
+				if name != "" {
+					byName[name] = append(byName[name], seenT{ref.Obj, where})
 				}
 			}
 		}
